@@ -243,7 +243,8 @@ constexpr auto make_B2_raw()
     b.pm(lim<T>::min() - lim<T>::denorm_min());
     b.pm(up(T(1)));
     b.pm(pow2<T>(100) * T(1.5));
-    if constexpr (thorough_tables) {
+    // long double: fmod / remainder walk up to 32000 binades per entry in constant evaluation; the table is not widened
+    if constexpr (thorough_tables && lim<T>::digits < 64) {
         for (int n = 4; n <= 9; ++n) { b.pm(T(n)); }
         for (int n = 0; n <= 6; ++n) { b.pm(T(n) + T(0.75)); }
         b.pm(T(3.5));
